@@ -90,6 +90,12 @@ RULE = ("mappings of 0-6 keys -> 0-4 values over arbitrary Unicode (JSON-structu
         "re-ordered subset of them + 0-2 keys of their own, routes line / ctor (dict, Attributes, JSON text; default dialect "
         "or the first line's) / db (memory or file, 1-3 write-backs: child_func, parent_func, update replace; scalar or "
         "two-item value), keep_order flipped on the object in 40%. "
+        "param: lines / database rows / JSON texts carrying 1-4 attributes spelled like parameter names (self, cls, args, kwargs, "
+        "other, d, key, value twice as likely as k, v, x, obj, mapping, iterable, default, items, keys, values, update...), "
+        "0-4 operations on them, origins line / db (40%) / jsontext / jsondb (30%); such keys also in 10% of the extra keys of "
+        "every set / print / edit base line, 8% of the json cases (mapping parsed from such a line, items set on top), 30% "
+        "of the db cases (carried by the parsed line), 15% of the reparse-safe sjson keys and in the korder key pool; every "
+        "set case also converts its stored JSON text back with _unjsonify(isattributes=True). "
         "Non-trivial = the mapping has a scalar-set or subclass-instance value or a non-ASCII/control/escape-worthy character (json, set, "
         "print, db), the arguments share a key (merge), the pool has equal distinct objects (eq), an observation precedes "
         "an edit (edit), always (sjson); distinct by case content")
@@ -162,7 +168,17 @@ REQUIRED = ["alias: re-fetched features compared with the stored text", "alias: 
             "korder: features written back through add_relation(parent_func=...)",
             "korder: features written back through update(merge_strategy='replace')",
             "korder: written rows read back and compared with the written feature's mapping",
-            "korder: raw columns of written rows decoded with stdlib json"]
+            "korder: raw columns of written rows decoded with stdlib json",
+            "set: stored JSON text converted back and compared",
+            "set: features obtained from a parsed line carrying parameter-named keys",
+            "set: features obtained from a database carrying parameter-named keys",
+            "set: features obtained from JSON text carrying parameter-named keys",
+            "set: features obtained from a database row holding scalar-valued JSON carrying parameter-named keys",
+            "set: features carrying parameter-named keys obtained while always_return_list=False",
+            "set: parameter-named keys taken through the stored JSON text and back",
+            "json: mappings parsed from a line carrying parameter-named keys",
+            "json: parameter-named keys taken through the stored JSON text and back",
+            "db: parsed parameter-named keys stored", "db: features carrying parameter-named keys read back (db[id])"]
 REQUIRED_CLASSES = ["set origin=line", "set origin=db", "print origin=line", "print origin=db", "merge dict,dict",
                     "merge attrs,attrs", "merge dict,attrs", "merge attrs,dict", "set origin=jsontext", "set origin=jsondb",
                     "db with lone surrogates, file", "db with lone surrogates, memory", "edit origin=line", "edit origin=db", "edit origin=jsontext", "edit origin=jsondb",
@@ -170,7 +186,11 @@ REQUIRED_CLASSES = ["set origin=line", "set origin=db", "print origin=line", "pr
                     "edit: attribute mapping edit after an observation", "sjson text", "sjson update_file",
                     "sjson update_conn", "sjson ctor_create", "sjson ctor_update",
                     "set member-named keys origin=line", "set member-named keys origin=db", "set member-named keys origin=jsontext",
-                    "korder line", "korder ctor", "korder db"]
+                    "korder line", "korder ctor", "korder db",
+                    "set parameter-named keys origin=line", "set parameter-named keys origin=db",
+                    "set parameter-named keys origin=jsontext", "set parameter-named keys origin=jsondb"] + [
+                    "key '%s' origin=%s" % (k, o) for k in G.PARSED_PARAM_NAMES for o in ("line", "db", "jsontext")] + [
+                    "parsed key '%s' through JSON text" % k for k in G.PARSED_PARAM_NAMES]
 ASSUMPTIONS = [
     "'sequence of strings' = list or tuple of str (a tuple that was set stays a legitimate stored value); JSON identity "
     "and database read-back are judged on key order and on values as sequences (a tuple comes back as a list); Python "
@@ -208,6 +228,8 @@ ASSUMPTIONS = [
     "line is compared only when the parser gives it the dialect of the edited feature and the intended attributes",
     "member-named keys: the statement makes no exception for any key, so 'through the Feature' (f[key], key a str) reaches "
     "the attributes mapping whatever the key is called; the fixed columns are reached by position (f[3]) or attribute",
+    "parameter-named keys: the statement makes no exception for any key; the key 'self' is never given as a KEYWORD "
+    "(update(self=...) is refused by Python's call itself for any method written in Python), it goes through update(dict)",
     "korder: 'keeps key order' = the order of the feature's own mapping, whatever order printing uses (keep_order prints "
     "in the dialect's order); a write-back stores the feature as it is when written; lines whose parser reading differs "
     "from the written attributes are skipped (ctor / line) or judged as read (db)",
@@ -295,6 +317,11 @@ def text_of_forms(items):
     return "".join(k + ("".join(f[1]) if f[0] != "scalar" else f[1]) for k, f in items)
 
 
+def param_line(pairs, i=0):
+    """GFF3 line whose attribute column carries the pairs as they are ([[key, [plain values]]])."""
+    return "chr1\tsrc\tgene\t%d\t%d\t.\t+\t.\t%s" % (10 + i, 500 + i, ";".join("%s=%s" % (k, ",".join(v)) for k, v in pairs))
+
+
 # ---------------------------------------------------------------------------------
 # kind json
 # ---------------------------------------------------------------------------------
@@ -304,10 +331,15 @@ def run_json(ctx, case):
     from gffutils.feature import Feature, feature_from_line
 
     items = case["items"]
+    parsed = case.get("parsed")
     try:
-        f = feature_from_line(BASE_LINE)
-        for k in list(f.attributes.keys()):
-            del f.attributes[k]
+        if parsed:
+            # the mapping starts as what the parser made of a line (ID=g1;self=yes;kwargs=a,b), the items are set on top
+            f = feature_from_line(param_line(parsed))
+        else:
+            f = feature_from_line(BASE_LINE)
+            for k in list(f.attributes.keys()):
+                del f.attributes[k]
         for k, form in items:
             f[k] = M.build(form)
         with Switch(case.get("switch", True)):
@@ -324,7 +356,13 @@ def run_json(ctx, case):
         ctx.violation(case, {"why": "JSON conversion raised %s" % type(ex).__name__, "exception": repr(ex)})
         contracts.drain()
         return
-    want = [[k, M.expected_sequence(form)] for k, form in items]
+    want = [[k, list(v)] for k, v in parsed or []] + [[k, M.expected_sequence(form)] for k, form in items]
+    if parsed:
+        ctx.mon("json: mappings parsed from a line carrying parameter-named keys")
+        ctx.mon("json: parameter-named keys taken through the stored JSON text and back", sum(1 for k, _ in parsed if G.is_param_key(k)))
+        for k, _ in parsed:
+            if G.is_param_key(k):
+                ctx.classes["parsed key '%s' through JSON text" % k] += 1
     why = None
     extra = {}
     if not isinstance(text, str):
@@ -465,11 +503,13 @@ def build_features(specs):
 
     feats, want = [], {}
     for i, spec in enumerate(specs):
-        f = feature_from_line("chr1\tsrc\tgene\t%d\t%d\t.\t+\t.\tID=%s" % (10 + i, 500 + i, spec["id"]))
+        # line_attrs: further attributes the LINE carries (parameter-named keys: ID=f0;self=yes), read by the parser
+        la = [[k, list(v)] for k, v in spec.get("line_attrs") or []]
+        f = feature_from_line(param_line([["ID", [spec["id"]]]] + la, i))
         for k, form in spec["items"]:
             f[k] = M.build(form)
         feats.append(f)
-        want[spec["id"]] = [["ID", [spec["id"]]]] + [[k, M.expected_sequence(form)] for k, form in spec["items"]]
+        want[spec["id"]] = [["ID", [spec["id"]]]] + la + [[k, M.expected_sequence(form)] for k, form in spec["items"]]
     return feats, want
 
 
@@ -516,6 +556,8 @@ def compare_db(ctx, case, db, want, what, counter="db: features read back"):
             g = db[fid]
             got = observe(g.attributes)
             ctx.mon(counter)
+            if any(G.is_param_key(k) for k, _ in exp):
+                ctx.mon("db: features carrying parameter-named keys read back (db[id])")
             if counter == "db: features read back":
                 flat = "".join(k + "".join(v) for k, v in exp)
                 if G.has_surrogate(flat):
@@ -567,6 +609,10 @@ def run_db(ctx, case):
             ctx.violation(case, {"why": "storing features raised %s" % type(ex).__name__, "exception": repr(ex)})
             contracts.drain()
             return
+        npar = sum(1 for spec in specs for k, _ in spec.get("line_attrs") or [] if G.is_param_key(k))
+        if npar:
+            ctx.mon("db: parsed parameter-named keys stored", npar)
+            ctx.mon("db: features carrying parsed parameter-named keys stored", sum(1 for spec in specs if spec.get("line_attrs")))
         nsub = sum(1 for spec in specs for _, form in spec["items"] if form[0] in M.SUBCLASS_FORMS)
         if nsub:
             ctx.mon("db: values set as instances of list / tuple / str subclasses stored", nsub)
@@ -917,6 +963,7 @@ def run_set(ctx, case):
                 j0 = helpers._jsonify(f.attributes)
             again = observe(f.attributes)
             j2 = helpers._jsonify(f.attributes)
+            jback = observe(helpers._unjsonify(j1, isattributes=True))
         except Exception as ex:
             ctx.violation(case, {"why": "observing the feature raised %s" % type(ex).__name__, "exception": repr(ex)})
             contracts.drain()
@@ -933,7 +980,9 @@ def run_set(ctx, case):
                         ctx.mon("set: subclass instances set through %s" % op["how"])
                         ctx.mon("set: subclass instances set while always_return_list=%s" % bool(op.get("switch", True)))
         ctx.mon("set: fixed columns compared after the attribute operations")
+        ctx.mon("set: stored JSON text converted back and compared")
         member_counters(ctx, case, now)
+        param_counters(ctx, case, now)
         if bad_value(now):
             why = bad_value(now)
             extra = bad_detail(now)
@@ -965,6 +1014,9 @@ def run_set(ctx, case):
             if indep != want:
                 why = "stored JSON text (stdlib reader) differs from what was set"
                 extra = {"json": j1, "expected": model.pairs()}
+            elif bad_value(jback) or as_lists(jback) != as_lists(now):
+                why = "stored JSON text converted back (_unjsonify) differs from the attributes (keys, key order or values)"
+                extra = {"json": j1, "got": repr(jback), "expected": as_lists(now)}
             for (k, stored), (_, seen) in zip(now, view):
                 if why:
                     break
@@ -1013,6 +1065,27 @@ def member_counters(ctx, case, now):
     if carried:
         ctx.mon("set: features obtained from %s carrying attributes spelled like Feature members" % (
             "a database" if case["origin"] in ("db", "jsondb") else "a line / JSON text"))
+
+
+def param_counters(ctx, case, now):
+    """What a set case did with attribute keys spelled like parameter names (self, cls, args, kwargs, other, d, key, value...)."""
+    carried = [k for k, _ in case["base"] if G.is_param_key(k)]
+    if carried:
+        where = {"line": "a parsed line", "db": "a database", "jsontext": "JSON text", "jsondb": "a database row holding scalar-valued JSON"}[case["origin"]]
+        ctx.mon("set: features obtained from %s carrying parameter-named keys" % where)
+        ctx.mon("set: parameter-named keys that arrived by parsing / from a database", len(carried))
+        if not case.get("obtain_switch", True):
+            ctx.mon("set: features carrying parameter-named keys obtained while always_return_list=False")
+        for k in carried:
+            ctx.classes["key '%s' origin=%s" % (k, case["origin"])] += 1
+    n = sum(1 for k, _ in now if G.is_param_key(k))
+    if n:
+        ctx.mon("set: parameter-named keys taken through the stored JSON text and back", n)
+    for op in case["ops"]:
+        if op["how"] != "delete":
+            for k, _ in op["items"]:
+                if G.is_param_key(k) and k in carried:
+                    ctx.mon("set: parsed / stored parameter-named keys set again through %s" % op["how"])
 
 
 def used_subclass(case):
@@ -1853,7 +1926,10 @@ def gen_base(rng, fmt):
     from gvmon.gen import records as R
 
     for _ in range(rng.randrange(0, 3)):
-        k = R.key(rng, wordlike=True, used=used)
+        if rng.random() < 0.1:
+            k = G.param_key(rng, used)      # a key spelled like a parameter name (self=yes), as any other key
+        else:
+            k = R.key(rng, wordlike=True, used=used)
         used.append(k)
         if fmt == "gtf":
             vals = [G.simple_value(rng)]
@@ -1896,6 +1972,16 @@ def gen_member_case(rng):
     keys = [k for k, _ in base if k not in ("ID", "gene_id", "transcript_id")]
     case = gen_origin(rng, {"kind": "set", "fmt": fmt, "base": base, "ops": G.member_ops(rng, keys)}, p_db=0.4, p_json=0.12)
     case["member"] = True
+    return case
+
+
+def gen_param_case(rng):
+    """kind set on a feature whose line / database row / JSON text carries attributes spelled like parameter names."""
+    fmt = "gtf" if rng.random() < 0.25 else "gff3"
+    base = G.param_base(rng, fmt)
+    keys = [k for k, _ in base if k not in ("ID", "gene_id", "transcript_id")]
+    case = gen_origin(rng, {"kind": "set", "fmt": fmt, "base": base, "ops": G.param_ops(rng, keys)}, p_db=0.4, p_json=0.3)
+    case["param"] = True
     return case
 
 
@@ -1997,6 +2083,9 @@ def run(ctx):
     for _ in range(ctx.budget(16000, 320000)):
         sur = rng.random() < 0.35
         case = {"kind": "json", "items": G.form_mapping(rng, surrogates=sur, nmax=6), "switch": rng.random() < 0.8}
+        if rng.random() < 0.08:
+            case["parsed"] = [["ID", ["g1"]]] + G.param_pairs(rng)
+            case["items"] = [it for it in case["items"] if it[0] not in [k for k, _ in case["parsed"]]]
         execute(ctx, case)
         txt = text_of_forms(case["items"])
         ctx.case(case, any(f[0] in M.SCALAR_FORMS + M.SUBCLASS_FORMS for _, f in case["items"]) or G.is_rich(txt), sample=case,
@@ -2011,6 +2100,19 @@ def run(ctx):
         case = {"kind": "db", "features": specs, "file": rng.random() < 0.4, "route": rng.choice(["create", "create", "update"]),
                 "again": G.form_mapping(rng, surrogates=sur, nmax=3, exclude=("ID", "Parent")) if rng.random() < 0.5 else []}
         case["latin1"] = case["file"] and rng.random() < 0.75
+        if rng.random() < 0.3:
+            for spec in specs:
+                if rng.random() < 0.7:
+                    spec["line_attrs"] = G.param_pairs(rng)
+                    taken = [k for k, _ in spec["line_attrs"]]
+                    spec["items"] = [it for it in spec["items"] if it[0] not in taken]
+            if case["again"] and specs[0].get("line_attrs") and rng.random() < 0.5:
+                # the re-stored feature gets a parsed parameter-named key set again
+                case["again"] = [[specs[0]["line_attrs"][0][0], case["again"][0][1]]] + case["again"][1:]
+                seen_k = []
+                case["again"] = [it for it in case["again"] if not (it[0] in seen_k or seen_k.append(it[0]))]
+            if any(s.get("line_attrs") for s in specs):
+                ctx.classes["db with parsed parameter-named keys, %s" % case["route"]] += 1
         execute(ctx, case)
         txt = "".join(text_of_forms(s["items"]) for s in specs)
         ctx.case(case, G.is_rich(txt) or any(f[0] in M.SCALAR_FORMS + M.SUBCLASS_FORMS for s in specs for _, f in s["items"]),
@@ -2052,6 +2154,11 @@ def run(ctx):
         case = gen_member_case(rng)
         execute(ctx, case)
         ctx.case(case, True, sample=case if rng.random() < 0.05 else None, cls="set member-named keys origin=" + case["origin"])
+    # 5b'. attribute keys spelled like parameter names, arriving by parsing / from a database / from JSON text
+    for _ in range(ctx.budget(2000, 40000)):
+        case = gen_param_case(rng)
+        execute(ctx, case)
+        ctx.case(case, True, sample=case if rng.random() < 0.05 else None, cls="set parameter-named keys origin=" + case["origin"])
     # 5c. keep_order features under a dialect that lists the keys in another order
     for _ in range(ctx.budget(700, 14000)):
         case = G.korder_case(rng)
